@@ -18,36 +18,36 @@ CHECKS = {
  "C03": ("exploration",
          "model-based testing against an independent UTXO replay: exhaustive enumeration of small block trees x golden-ticket masks x all delivery permutations, plus proptest-generated trees/orders/duplicates/invalid blocks with shrinking",
          "After every single delivery the node's by-height index, per-block on-chain flags, reported tip and utxoset are compared with an independently written replay (BTreeMap ledger) of the ancestor path of the reported tip. Small trees are enumerated completely in every delivery order, so arrival-order-specific bookkeeping bugs in that sub-space cannot hide; random trees (to 16 blocks, conflicting spends on sibling branches, invalid blocks, duplicates, orphans) reach repeated back-and-forth reorganisations.",
-         "Blocks are built by honest producers following each branch (the repository's Block::create). Utxoset and replay are compared from block tip-gp upwards (spendable window plus the block the next rebroadcast reads); index and flags above the 2*genesis_period purge horizon. Histories on which add_block panics or diverges are attributed to C04; a rejected delivery that leaves a trace is judged here too (is the state left behind still one chain?). Open known finding F10 (orphan path with initial_loading_completed=false) is keyed by cause.",
+         "Blocks are built by honest producers following each branch (the repository's Block::create). Utxoset and replay are compared from block tip-gp upwards (spendable window plus the block the next rebroadcast reads); index and flags above the 2*genesis_period purge horizon. Histories on which add_block panics or diverges are attributed to C04; a rejected delivery that leaves a trace is judged here too (is the state left behind still one chain?). Open known finding F10 (out-of-order branch of add_block) is keyed by what it needs: a parentless block at or below the tip's height or a branch with a purged fork point; histories with early blocks above the tip are judged normally.",
          "DESIGN.md §3 C03"),
  "C04": ("fault_enumeration",
          "systematic fault enumeration over (fork shape, offending position, kind of invalidity, chain content) with a full before/after state snapshot oracle and a deterministic step-count bound (hook H1)",
-         "Every combination of main-chain length, fork depth, position of the invalid block in the candidate chain (first/middle/last) and 20 kinds of invalidity (9 header lies, 4 payout lies, 7 invalid-transaction edits) is built with real signed blocks and delivered; any delivery that is not accepted must leave tip, utxoset, chain index, stored blocks and wallet bit-identical, the wind/unwind loop must finish within 2(|old|+|new|)+2 iterations (counted by the cfg-guarded hook), and the tip must never move onto a chain containing the invalid block.",
+         "Every combination of main-chain length (also past the window wrap with genesis period 4 and 5), fork depth, position of the invalid block in the candidate chain (first/middle/last) and 20 kinds of invalidity (9 header lies, 4 payout lies, 7 invalid-transaction edits) is built with real signed blocks and delivered; any delivery that is not accepted must leave tip, utxoset, chain index, stored blocks and wallet bit-identical, the wind/unwind loop must finish within 2(|old|+|new|)+2 iterations (counted by the cfg-guarded hook), and the tip must never move onto a chain containing the invalid block.",
          "Children of the invalid block are produced by a harness-side builder that treats the invalid block as accepted; the step counter is hook H1 (cfg saito_verif), which also turns a livelock into a verdict instead of a hang.",
          "DESIGN.md §3 C04"),
  "C01": ("exploration",
-         "property-based adversarial testing: generated chain states x an edit catalogue of 22 invalid-transaction constructions, judged by an independent reference ledger, offered to both pool entry points and (inside attacker-built blocks) to block validation",
+         "property-based adversarial testing: generated chain states x an edit catalogue of 25 invalid-transaction constructions (incl. privileged types without inputs, ATR-typed thefts, two valid spends of one output in one received block), judged by an independent reference ledger, offered to both pool entry points and (inside attacker-built blocks) to block validation",
          "Honest forked histories (fees, golden tickets, rebroadcasts; gp 4..100) put a victim node into one of the state classes fresh / after reorg / after window wrap; every catalogue edit is built from the victim's real ledger, confirmed invalid by the independent reference ledger, and must be refused by Mempool::add_transaction_if_validates, by VerificationThread::verify_tx and by add_block of an attacker-built block with 0..3 honest fillers; an honest spend must be admitted. A validator that stops gating on any one rule (signature, ownership, existence, window, double spend, overspend, type privileges) accepts at least one catalogue entry.",
          "Staking (social_stake>0) state class is not generated. Adversary cannot forge signatures. The attacker's block is produced with the repository's Block::create, so its header is consistent with the invalid content.",
          "DESIGN.md §3 C01"),
  "C02": ("exploration",
          "invariant checking over generated histories: supply recomputed in u128 from the node's own utxoset and tip header after every accepted block; per-transaction conservation in u128",
          "After every block accepted onto the longest chain of generated honest histories (forks/reorgs, several window wraps, fees, payouts, rebroadcast with and without treasury payout multiplier and 5% cap, amounts 1..2^58) the sum of spendable in-window outputs + treasury + graveyard + unpaid + fees must equal the genesis issuance in unbounded arithmetic, and the node's own (wrapping) supply check must not abort it. Overflow-based minting by adversarial transactions is covered by C01's Overspend/OverspendWrap edits.",
-         "Supply is recomputed from the implementation's utxoset (not from the reference ledger) so that utxoset bugs show up as supply changes. Every eighth position of a history is a two-block side chain whose second block spends a spent / non-existent output (a reorganisation that fails part-way). Finding F11 (u64 overflow of amount x payout multiplier) was repaired; its key stays available through an independent overflow predicate.",
+         "Supply is recomputed from the implementation's utxoset (not from the reference ledger) so that utxoset bugs show up as supply changes. Every eighth position of a history is a two-block side chain whose second block spends a spent / non-existent / expired output or carries two valid spends of one (rebroadcast, if any) output (a reorganisation that fails part-way). Histories with a fork point more than one genesis period below the tip or a candidate segment longer than two genesis periods are filed under open finding F42. Finding F11 (u64 overflow of amount x payout multiplier) was repaired; its key stays available through an independent overflow predicate.",
          "DESIGN.md §3 C02"),
  "C05": ("exploration",
          "model-based testing against a reference fork-choice function: exhaustive small trees x ticket masks x timestamp profiles x all delivery orders, plus generated trees/orders with shrinking",
          "Every tip movement must satisfy the reference rule (strictly longer, cumulative burn fee over the diverging segment >=, valid by construction, >= 2 golden tickets in every six-block window) and every delivery completing such a chain must be adopted; tip height is monotone; an orphan changes neither tip nor index. Equal-length, longer-but-lighter and ticket-poor-inside side chains are generated on purpose.",
-         "The 'must adopt' direction is asserted only for chains that also satisfy the implementation's extra start-up rule (one ticket in the first five blocks); other cases are counted as unasserted. Orphan deliveries with initial_loading_completed=false are known finding F10b.",
+         "The 'must adopt' direction is asserted only for chains that also satisfy the implementation's extra start-up rule (one ticket in the first five blocks); other cases are counted as unasserted. Deliveries of a parentless block at or below the tip's height (initial_loading_completed=false) or on a branch with a purged fork point are known finding F10b; a block that merely arrives early (above the tip) must be neutral and the history is judged on.",
          "DESIGN.md §3 C05"),
  "C06": ("exploration",
-         "property-based mutation of valid blocks (20 edit kinds on transaction list, single transaction fields incl. txs_replacements, input coordinates and routing path, signed/unsigned header fields, merkle root, signature, creator) across the wire format, offered to replica nodes in three states (whole chain, joined mid-chain, empty node + genesis block); oracle from the statement",
+         "property-based mutation of valid blocks (21 edit kinds on transaction list incl. truncation down to the header-only form, single transaction fields incl. txs_replacements, input coordinates and routing path, signed/unsigned header fields, merkle root, signature, creator) across the wire format, offered to replica nodes in three states (whole chain, joined mid-chain, empty node + genesis block); oracle from the statement",
          "For valid blocks at the tip of generated histories every edit of the transaction list or of a signed header field that is not re-signed by the stated creator must be refused; a block accepted under the original hash must carry the original ordered transaction list; a block re-signed by another key must have another hash; the unedited round-tripped block must be accepted.",
          "Edits of header fields outside the signature are classified, not asserted (the statement does not cover them). Open finding F40 (input coordinates and routing path are outside the transaction hash) is keyed by cause: accepted, same hash, same transaction hashes, different transactions. Edits that decode to a field-for-field identical block (zeroed merkle root recomputed from unchanged transactions) are discarded as no-ops.",
          "DESIGN.md §3 C06"),
  "C07": ("exploration",
          "differential property-based testing: generated production histories driven through the node's own pool entry and producer; every produced block is validated by the producer and by an independent second node (over the wire format), states compared",
-         "From genesis the node produces up to 25 blocks in a row through Mempool::add_transaction_if_validates / add_golden_ticket / bundle_block with generated pool content (payers, fees, routing paths ending at the producer), golden-ticket availability, timestamp offsets (1 ms..20 s), genesis period 4..100 (several window wraps), heartbeat 100/5000, staking on/off and genesis treasury (payout multiplier, 5% cap). Producer and validator must agree on every produced block and end in identical tip/utxoset on two independent nodes.",
+         "From genesis the node produces up to 25 blocks in a row through Mempool::add_transaction_if_validates / add_golden_ticket / bundle_block with generated pool content (payers, fees, routing paths ending at the producer), golden-ticket availability, timestamp offsets (1 ms..20 s), genesis period 4..100 (several window wraps), heartbeat 100/5000, staking on/off, genesis treasury (payout multiplier, 5% cap), amounts and fees up to ~2^60, and a late start (the first gp-1..gp+1 blocks by another producer, the node's first own block at the window edge). Producer and validator must agree on every produced block and end in identical tip/utxoset on two independent nodes.",
          "The producer is driven through Mempool::bundle_block exactly as ConsensusThread::produce_block does (golden ticket taken from the pool's ticket map); the timer-driven wrapper ConsensusThread::bundle_block is exercised in the net-world checks. Pool transactions of the producer's own key are not generated when staking is on (they would compete with the wallet's stake selection, a C14 matter).",
          "DESIGN.md §3 C07"),
  "C08": ("exploration",
@@ -57,18 +57,18 @@ CHECKS = {
          "DESIGN.md §3 C08"),
  "C13": ("exploration",
          "model-based checking of every window-edge block of generated long histories against an independent reference ledger, plus adversarial spend probes of expired outputs",
-         "For every block that enters the longest chain beyond height gp+1 (generated histories with several window wraps, dust, fees, treasury payout multiplier and cap, forks across the edge) the set U of still-unspent outputs of the expiring block is taken from the independent replay; rebroadcast transactions must map one-to-one into U, keep the owner, carry value+payout-fee, the payouts must equal the treasury debit, and rebroadcast fees plus the value of non-rebroadcast members of U must equal total_fees_atr; real signed spends of expired outputs are then offered to the pool and must be refused.",
+         "For every block that enters the longest chain beyond height gp+1 (generated histories with several window wraps, dust, fees, treasury payout multiplier and cap, forks across the edge; forged-rebroadcast probes: a block with an ATR-typed transaction consuming an output that has not left the window must be refused) the set U of still-unspent outputs of the expiring block is taken from the independent replay; rebroadcast transactions must map one-to-one into U, keep the owner, carry value+payout-fee, the payouts must equal the treasury debit, and rebroadcast fees plus the value of non-rebroadcast members of U must equal total_fees_atr; real signed spends of expired outputs are then offered to the pool and must be refused.",
          "NFT groups are minted (one generated transaction in ten) and rebroadcast, also a second time; a group's payload must come back together with its bound slips. NFT transfers are not generated. 'No longer spendable' is judged operationally (a signed spend is refused), not by absence from the utxoset map.",
          "DESIGN.md §3 C13"),
  "C14": ("exploration",
          "stateful model-based testing: generated operation sequences (vec of ops + interpreter, shrinking as one value) over pool, producer, peer blocks and reorganisations, invariants after every step and a terminal spendability probe, judged by the independent reference ledger",
-         "Sequences of up to 30 pool operations (fresh/conflicting/duplicate/invalid submissions, local bundling, peer blocks confirming pooled transactions, peer blocks spending one input of a multi-input pooled transaction, rejected blocks, reorganising side chains) are interpreted against one node; after each step the pool must be conflict-free, every pooled transaction valid on the current ledger, the cached routing work exact, bundling all-or-nothing; at the end every spendable output not referenced by the pool must be spendable through the pool.",
+         "Sequences of up to 30 pool operations (fresh/conflicting/duplicate/invalid/shaped submissions, local bundling, peer blocks confirming pooled transactions, peer blocks spending one input of a multi-input pooled transaction, rejected blocks, reorganising side chains) are interpreted against one node; after each step the pool must be conflict-free, every pooled transaction valid on the current ledger, the cached routing work exact, bundling all-or-nothing; at the end every spendable output not referenced by the pool must be spendable through the pool.",
          "Staking is off (the wallet's stake selection is not in scope here). Pool admission of catalogue edits is C01's subject; here only consistency is asserted.",
          "DESIGN.md §3 C14"),
  "C19": ("exploration",
-         "stateful model-based testing of the wallet against the independent reference ledger: generated sequences of payments, wallet-built spends, inclusion/omission, empty-block runs and unwinding side chains; invariants after every step",
+         "stateful model-based testing of the wallet against the independent reference ledger: generated sequences of payments, wallet-built spends (one and two payments, amounts up to 2^64), staking transactions, inclusion/omission, empty-block runs and unwinding side chains; invariants after every step",
          "After each of up to 30 generated operations the wallet's balance must equal the sum of its unspent slips, unspent must be a subset of slips, and - while no reorganisation has happened - the unspent set must equal the reference ledger's spendable in-window outputs of the wallet key minus inputs committed to pending built transactions; every transaction built by Transaction::create must have no repeated input, outputs <= inputs and be valid per the reference ledger on the ledger it was built on (also after reorganisations).",
-         "Staking slips and NFT groups are not generated. Exact set equality is only asserted on reorg-free histories, as the statement says.",
+         "NFT groups are not generated; staking transactions are built in a third of the cases (stake requirement 0, stake period 1-3). Exact set equality is only asserted on reorg-free histories, as the statement says.",
          "DESIGN.md §3 C19"),
  "C18": ("exploration",
          "exhaustive enumeration of all 2^n touch patterns (n <= 8 quick, <= 11 thorough) plus property-based random blocks/key lists; projection and commitment-recomputation oracles, in memory and across the wire format",
@@ -76,18 +76,18 @@ CHECKS = {
          "Open known finding F27: whenever two adjacent omitted transactions are merged the commitment is not recomputable (keyed by merged/unmerged so that a regression of the unmerged case is still reported). The HTTP route in saito-rust that serves lite blocks is not driven; the same Block::generate_lite_block + serialize_for_net calls are.",
          "DESIGN.md §3 C18"),
  "C16": ("exploration",
-         "stateful model-based testing through the routing layer with an I/O-boundary monitor: exhaustive operation sequences to depth 4 (quick) / 5 (thorough) over a small universe plus proptest-generated sequences to length 60, each run to quiescence",
+         "stateful model-based testing through the routing layer with an I/O-boundary monitor: exhaustive operation sequences to depth 4 (quick) / 5 (thorough) over a small universe plus proptest-generated sequences to length 60, each run to quiescence; random sequences also complete fetches in any order and contain peer-less parent requests from the consensus thread",
          "The scheduler is only driven by what the node really receives (header-hash announcements from authenticated peers, timer ticks, fetched blocks, fetch failures, blocks arriving by another route) and only observed where its decisions leave the node (fetch_block_from_peer). A harness-side model of the fetches in flight checks the per-peer bound, height order and no-skip within each selection round, no double request, completeness at quiescence and the retry bound (1800 rounds with an always-failing block that the peer announces again at generated rounds, optionally announced by a second peer too; 502 requests per peer).",
          "Ordering is asserted among never-failed entries (a failed entry re-enters one round later by design). Open known findings F28/F28b (the scheduler forgets outstanding fetches when the block arrives from elsewhere) are keyed by root cause: an excess or double request that is not explained by such a forgotten fetch is still a violation.",
          "DESIGN.md §3 C16"),
  "C17": ("exploration",
          "property-based protocol testing with an active attacker model: generated interleavings (4..14 ops) of honest handshake traffic and attacker actions (drop, reorder, replay, redirect, reflect, own-key responses over right/foreign/self-chosen challenges, signing-oracle challenges) against two real routing threads; authentication monitor derived from observed challenges",
-         "Every transition of a connection to Connected under key K (status change or handshake-complete interface event) must coincide with the delivery, on that connection, of a response whose signature verifies for K over a challenge that this node issued on this connection and had not accepted before; deliveries that complete nothing must leave every other authenticated connection and the key->connection index untouched. The undisturbed handshake must complete on both sides.",
+         "Every transition of a connection to Connected under key K (status change or handshake-complete interface event) must coincide with the delivery, on that connection, of a response whose signature verifies for K over a challenge that this node issued on this connection and had not accepted before, and K must not be the node's own key (a reflected signature is not the remote side's); deliveries that complete nothing must leave every other authenticated connection and the key->connection index untouched. The undisturbed handshake must complete on both sides.",
          "Attacker cannot forge signatures; a live relay of the very challenge is counted, not flagged (it satisfies the statement's letter). Connection indices are fixed by the harness; rate limiters are not exhausted in these short sequences.",
          "DESIGN.md §3 C17"),
  "C15": ("exploration",
-         "(a) property-based testing of the ancestor estimate on synthetic block rings with collision-free fingerprints; (b) deterministic-scheduler exploration of two real nodes (routing/verification/consensus threads): enumerated chain triples in order plus proptest-generated triples and schedules (message, fetch-completion and internal-event interleavings), convergence oracle at quiescence",
-         "(a) for 3e3 (quick) chain pairs up to 2e5 blocks, below and above every fork-id checkpoint, the estimate computed from the peer's fork id must not exceed the true fork height; (b) for every (prefix, own suffix, peer suffix) up to 4/4/5 (quick) and generated ones up to 12/6/14 under generated schedules with up to four pending fetches completed in any order, the syncing node must end on the peer's tip, the peer must stay put, and every lacking block must have been requested.",
+         "(a) property-based testing of the ancestor estimate on synthetic block rings with collision-free fingerprints; (b) deterministic-scheduler exploration of two real nodes (routing/verification/consensus threads): enumerated chain triples in order plus proptest-generated triples and schedules (message, fetch-completion and internal-event interleavings), optionally a second round after a reconnect with both sides grown, convergence oracle at quiescence; (c) a lite (SPV) node syncing through the ghost chain: enumerated payment masks and generated chains, hash-fidelity oracle",
+         "(a) for 3e3 (quick) chain pairs up to 2e5 blocks, below and above every fork-id checkpoint, the estimate computed from the peer's fork id must not exceed the true fork height; (b) for every (prefix, own suffix, peer suffix) up to 4/4/5 (quick) and generated ones up to 12/6/14 under generated schedules with up to four pending fetches completed in any order, the syncing node must end on the peer's tip, the peer must stay put, and every lacking block must have been requested; (c) after handshake, ghost-chain request and ghost chain every block of the peer's chain must be indexed by the lite node under the peer's real hash or requested by exactly (hash, id).",
          "Per-direction message order on a connection is preserved (as a websocket does); the by-design 2^-16 checkpoint fingerprint collision is excluded from (a) by construction of the synthetic hashes. Out-of-order fetch completion with initial_loading_completed=false is known finding F10c (root cause F10).",
          "DESIGN.md §3 C15"),
  "C11": ("exploration",
@@ -97,7 +97,7 @@ CHECKS = {
          "DESIGN.md §3 C11"),
  "C12": ("fault_enumeration",
          "crash-point enumeration over the journal of storage operations recorded by an in-memory InterfaceIO (prefix x {complete, absent, torn at 5 byte-class boundaries and at/inside the first three transaction boundaries}), each followed by a real restart through ConsensusThread::on_init and a differential/replay oracle; histories generated with proptest",
-         "For generated histories with pruning, rebroadcast, reorganisations and stored-but-never-validated invalid side blocks the clean restart must reproduce tip and in-window spendable set; for every enumerated crash point the restarted node must come up without panicking on a tip whose file was completely on disk, with index/flags describing the tip's ancestors, the in-window spendable set equal to the independent replay of that chain, supply conserved when the whole window is held, and must accept a valid next block; after a second block it is shut down cleanly and restarted from its own files, and must not come back on an ancestor of that tip.",
+         "For generated histories with pruning, rebroadcast, reorganisations, stored-but-never-validated invalid side blocks and (in half of them) one block delivered before its ancestors the clean restart must reproduce tip and in-window spendable set; for every enumerated crash point the restarted node must come up without panicking on a tip whose file was completely on disk, with index/flags describing the tip's ancestors, the in-window spendable set equal to the independent replay of that chain, supply conserved when the whole window is held, and must accept a valid next block; after a second block it is shut down cleanly and restarted from its own files, and must not come back on an ancestor of that tip.",
          "The tearing model (prefix of the new content under the final name; removal atomic) is an assumption taken from RustIOHandler::write_value; the native handler is not executed. Quick tier strides over journal prefixes outside reorganisation/pruning steps; thorough tier takes every prefix. Histories avoid side chains whose fork point has been purged (known finding F10). Open findings F37 (unvalidated stored side block adopted at restart once the genesis block is purged) and F41 (a competing valid branch wins by file order) are keyed by cause.",
          "DESIGN.md §3 C12"),
  "C20": ("exploration",
